@@ -88,9 +88,13 @@ HStep(hh, pre, post, m, ev) ==
               THEN [h5 EXCEPT !.bad = @ \cup {"ApplyOrder"}] ELSE h5
       h7 == IF ev = "Apply" /\ pre.aq # NoSnap /\ (post.aapp < pre.aapp \/ post.aapp # pre.aq.index)
               THEN [h6 EXCEPT !.bad = @ \cup {"ApplyOrder"}] ELSE h6
+      \* C07/C18: after a snapshot was applied the membership raft works with is the snapshot's
+      h7b == IF ev = "Apply" /\ pre.aq # NoSnap /\ post.up /\
+                (post.V # pre.aq.v \/ post.NV # pre.aq.nv \/ post.W # pre.aq.w)
+               THEN [h7 EXCEPT !.bad = @ \cup {"SnapshotMembership"}] ELSE h7
       \* one vote per term, step level: a vote never changes within a term
       h8 == IF pre.up /\ post.up /\ pre.term = post.term /\ pre.vote # None /\ post.vote # pre.vote
-              THEN [h7 EXCEPT !.bad = @ \cup {"VoteChangedInTerm"}] ELSE h7
+              THEN [h7b EXCEPT !.bad = @ \cup {"VoteChangedInTerm"}] ELSE h7b
       \* committed index never moves backwards within an incarnation; term never decreases
       h9 == IF pre.up /\ post.up /\ ev # "Restart" /\ (post.com < pre.com \/ post.term < pre.term)
               THEN [h8 EXCEPT !.bad = @ \cup {"Monotonic"}] ELSE h8
@@ -222,6 +226,7 @@ RemovedNeverReadmitted == \A n \in Up : node[n].mem.rm \cap (node[n].mem.v \cup 
 KindsDisjoint == \A n \in Up : LET m == node[n].mem IN m.v \cap m.nv = {} /\ m.v \cap m.w = {} /\ m.nv \cap m.w = {}
 MembershipHasVoter == \A n \in Up : (node[n].aapp > 0 /\ node[n].kind # "W") => node[n].mem.v # {}
 KindOnlyPromotes == "KindChange" \notin h.bad
+SnapshotMembershipInstalled == "SnapshotMembership" \notin h.bad
 
 \* C17 bounded progress, evaluated when the fair fault-free phase is over: a leader exists, every
 \* running member of its configuration is in its term and caught up to its commit index (by log
